@@ -1023,6 +1023,7 @@ char * SCPI_dtostre(double __val, char * __s, size_t __ssize, unsigned char __pr
     int sign = SCPIDEFINE_signbit(__val);
     char * s = buffer;
     int decpt;
+    int last;
 
     if (__ssize == 0) {
         return __s;
@@ -1054,6 +1055,7 @@ char * SCPI_dtostre(double __val, char * __s, size_t __ssize, unsigned char __pr
     }
 
     scpi_ecvt(__val, __prec, &decpt, &sign, s, SCPI_DTOSTRE_BUFFER_SIZE - 1);
+    last = __prec; /* index of the last digit after the decimal point is inserted */
     if (decpt > 1 && decpt <= __prec) {
         memmove(s + decpt + 1, s + decpt, __prec + 1 - decpt);
         s[decpt] = '.';
@@ -1063,6 +1065,7 @@ char * SCPI_dtostre(double __val, char * __s, size_t __ssize, unsigned char __pr
         memmove(s + decpt + 1, s, __prec + 1);
         memset(s, '0', decpt + 1);
         s[1] = '.';
+        last = __prec + decpt; /* digits were moved behind the leading zeros */
         decpt = 0;
     } else {
         memmove(s + 2, s + 1, __prec + 1);
@@ -1070,7 +1073,7 @@ char * SCPI_dtostre(double __val, char * __s, size_t __ssize, unsigned char __pr
         decpt--;
     }
 
-    s = &s[__prec];
+    s = &s[last];
     while (s[0] == '0') {
         s[0] = 0;
         s--;
